@@ -166,6 +166,16 @@ def run_escquo(case, rt):
 
 def run_netloc(case, rt):
     host, port, dflt = dec(case["host"]), case["port"], case["default"]
+    if "fb" in case:
+        # feedback: the host is what render_netloc itself prints for a first (possibly degenerate: empty host) pair
+        fb = case["fb"]
+        status, out = call(rt, "netloc", dec(fb["host1"]), struct.pack("<Q", fb["port1"]), struct.pack("<Q", 0))
+        vcheck(status == "ok", "netloc-throws", status)
+        text = out[0]
+        whole = text.replace(b":", b";") or b"h"
+        head, _, tail = text.partition(b":")
+        host = [head, tail, whole][fb["how"]].replace(b":", b";") or whole
+        rt.cls("py_netloc:host from the rendering of " + ("(empty host, port)" if not dec(fb["host1"]) else "a regular pair"))
     status, out = call(rt, "netloc", host, struct.pack("<Q", port), struct.pack("<Q", dflt))
     vcheck(status == "ok", "netloc-throws", status)
     text, phost, pport = out[0], out[1], struct.unpack("<Q", out[2])[0]
@@ -177,9 +187,44 @@ def run_netloc(case, rt):
 
 # ------------------------------------------------------------------ strategies
 
+# Well-known multi-byte sequences (same families as dictionary() of harness/c11_text.cc): byte order marks, invisible and separator
+# characters, non-characters, overlong / invalid / boundary UTF-8, line endings, terminal sequences, escape syntaxes.
+DICTIONARY = [
+    b"\xef\xbb\xbf", b"\xff\xfe", b"\xfe\xff", b"\xff\xfe\x00\x00", b"\x00\x00\xfe\xff", b"+/v8",
+    b"\xe2\x80\xa8", b"\xe2\x80\xa9", b"\xc2\x85", b"\xc2\xa0", b"\xe2\x80\x8b", b"\xe2\x80\x8e", b"\xe2\x80\x8f", b"\xe2\x80\xae", b"\xe2\x81\xa0", b"\xc2\xad",
+    b"\xef\xbf\xbd", b"\xef\xbf\xbe", b"\xef\xbf\xbf", b"\xef\xb7\x90",
+    b"\xc0\x80", b"\xc0\xaf", b"\xc1\xbf", b"\xe0\x80\x80", b"\xe0\x9f\xbf", b"\xf0\x80\x80\x80", b"\xf0\x8f\xbf\xbf",
+    b"\xed\xa0\x80", b"\xed\xbf\xbf", b"\xf4\x8f\xbf\xbf", b"\xf4\x90\x80\x80", b"\xf8\x88\x80\x80\x80", b"\xc2", b"\xe2\x80", b"\xf0\x9f\x98", b"\x80", b"\xbf",
+    b"\xc3\xa9", b"\xe2\x82\xac", b"\xf0\x9f\x98\x80", b"\xdf\xbf", b"\xe0\xa0\x80", b"\xf0\x90\x80\x80", b"\x7f",
+    b"\r\n", b"\n\r", b"\r", b"\n", b"\x00", b"\t", b"\x0b", b"\x0c", b"\x1a", b"\x07", b"\x08",
+    b"\x1b[0m", b"\x1b[31;1m", b"\x1b[2J", b"\x1b]0;t\x07", b"\x1b", b"\x9b0m",
+    b"%", b"%%", b"%0", b"%00", b"%20", b"%2F", b"%2f", b"%25", b"%zz", b"%u00e9", b"+",
+    b"\\", b"\\\\", b"\\x", b"\\x0", b"\\x00", b"\\x41", b"\\xZZ", b"\\n", b"\\\"", b"\\'", b"\\0", b"\\u0041", b"\\U0001F600", b"\\e",
+    b"\"", b"'", b"\"\"", b"`", b"&amp;", b"&lt;", b"&#39;", b"&#x27;", b"&", b"&&", b"=", b"==", b"===", b"====", b"?a=b&c=d", b"#", b"://", b"//", b"/", b"/../", b"~",
+    b"A", b"Zz", b"AbCd", b"NOPnop", b"====A",
+]
+
+
+@st.composite
+def spliced(draw, max_size):
+    """1..3 dictionary sequences at the start, at the end or inside a (mostly short) byte string"""
+    base = draw(st.one_of(st.just(b""), st.binary(max_size=24), st.binary(max_size=24), st.binary(max_size=max_size)))
+    for _ in range(draw(st.integers(1, 3))):
+        w = draw(st.sampled_from(DICTIONARY))
+        where = draw(st.integers(0, 2))
+        if where == 0:
+            base = w + base
+        elif where == 1:
+            base = base + w
+        else:
+            k = draw(st.integers(0, len(base)))
+            base = base[:k] + w + base[k:]
+    return base
+
+
 def blob(max_size):
     special = st.sampled_from([0x00, 0xFF, 0x7F, 0x80, 0x20, 0x22, 0x27, 0x5C, 0x0A, 0x09, 0x2F, 0x2B, 0x2D, 0x5F, 0x3D, 0x26, 0x25, 0x7E, 0x41, 0x7A])
-    return st.one_of(st.binary(max_size=max_size), st.lists(special, max_size=min(64, max_size)).map(bytes)).map(enc)
+    return st.one_of(st.binary(max_size=max_size), st.lists(special, max_size=min(64, max_size)).map(bytes), spliced(max_size)).map(enc)
 
 
 def b64_texts(kind_strategy):
@@ -232,7 +277,20 @@ def b64_texts(kind_strategy):
 
 kinds = st.sampled_from(KINDS)
 hosts = st.one_of(st.text(alphabet="abcxyz0189.-", min_size=1, max_size=30).map(lambda s: s.encode()),
-                  st.binary(min_size=1, max_size=30).map(lambda b: b.replace(b":", b";")))
+                  st.binary(min_size=1, max_size=30).map(lambda b: b.replace(b":", b";")),
+                  spliced(30).map(lambda b: b.replace(b":", b";") or b"h"))
+ports = st.one_of(st.sampled_from([0, 0, 1, 80, 443, 9999, 10000, 65535]), st.integers(0, 65535))
+
+
+@st.composite
+def netloc_cases(draw):
+    case = {"host": enc(draw(hosts)), "port": draw(ports), "default": draw(st.integers(0, 65535))}
+    if draw(st.integers(0, 3)) == 0:
+        # the host is derived (0 part before the colon, 1 part after it, 2 whole with colons replaced) from what render_netloc prints for
+        # a first pair - half of the time with the empty host, where it prints a placeholder or the bare port
+        host1 = b"" if draw(st.booleans()) else draw(hosts)
+        case["fb"] = {"host1": enc(host1), "port1": draw(ports), "how": draw(st.integers(0, 2))}
+    return case
 
 CHECKS = [
     Check("py_b64enc", run_b64enc, st.builds(lambda k, d: {"kind": k, "data": d}, kinds, blob(2048)), quick_cases=2500, thorough_cases=60000),
@@ -241,9 +299,7 @@ CHECKS = [
     Check("py_escurl", run_escurl, st.builds(lambda f, d: {"flag": f, "data": d}, st.sampled_from(["0", "1"]), blob(2048)), quick_cases=2000, thorough_cases=40000),
     Check("py_escctl", run_escctl, st.builds(lambda f, d: {"flag": f, "data": d}, st.sampled_from(["0", "1"]), blob(2048)), quick_cases=2000, thorough_cases=40000),
     Check("py_escquo", run_escquo, st.builds(lambda d: {"data": d}, blob(2048)), quick_cases=1200, thorough_cases=30000),
-    Check("py_netloc", run_netloc, st.builds(lambda h, p, d: {"host": enc(h), "port": p, "default": d}, hosts,
-                                              st.one_of(st.sampled_from([0, 1, 80, 443, 9999, 10000, 65535]), st.integers(0, 65535)), st.integers(0, 65535)),
-          quick_cases=1200, thorough_cases=30000),
+    Check("py_netloc", run_netloc, netloc_cases(), quick_cases=1200, thorough_cases=30000),
 ]
 
 if __name__ == "__main__":
